@@ -1144,7 +1144,8 @@ impl RefTerm {
         self.active = h.active_charset;
         self.top = h.top_margin;
         self.bottom = h.bottom_margin;
-        self.tabs = h.tabs.iter().copied().collect();
+        // the tab stops are NOT adopted: where they should be is fixed by C18's rules, and
+        // the movement commands (C05) are judged against where the stops should be
         let conv_s = |c: &avt::VerifSavedCtx, old: &Option<Saved>| {
             Some(Saved {
                 col: c.cursor_col,
